@@ -1,6 +1,7 @@
 package jsonschema
 
 import (
+	"bytes"
 	"encoding/json"
 	"errors"
 	"fmt"
@@ -49,9 +50,20 @@ func GenerateAST(schemaReader io.Reader, c Config) (*ast.Schema, error) {
 		schema: ast.NewSchema(c.Package, c.SchemaMetadata),
 	}
 
+	content, err := io.ReadAll(schemaReader)
+	if err != nil {
+		return nil, fmt.Errorf("[%s] %w", c.Package, err)
+	}
+
+	// the parser resolves a plain-name reference (`#thing`) to whichever of the schemas
+	// that declare that anchor it meets first, in an order that changes from run to run
+	if err := checkAnchorsAreUnique(content); err != nil {
+		return nil, fmt.Errorf("[%s] %w", c.Package, err)
+	}
+
 	compiler := schemaparser.NewCompiler()
 	compiler.ExtractAnnotations = true
-	if err := compiler.AddResource("schema", schemaReader); err != nil {
+	if err := compiler.AddResource("schema", bytes.NewReader(content)); err != nil {
 		return nil, fmt.Errorf("[%s] %w", c.Package, err)
 	}
 
@@ -116,6 +128,78 @@ func (g *generator) declareDefinition(definitionName string, schema *schemaparse
 			ReferredType: definitionName,
 		},
 	})
+
+	return nil
+}
+
+// checkAnchorsAreUnique refuses a document in which two schemas of the same
+// resource declare the same anchor (`$anchor`, `$dynamicAnchor`, or the `$id: "#name"`
+// of the older drafts): what a reference to it designates is not defined.
+func checkAnchorsAreUnique(content []byte) error {
+	var document any
+	if err := json.Unmarshal(content, &document); err != nil {
+		// the parser reports what is wrong with the document
+		return nil
+	}
+
+	type anchorDeclaration struct {
+		resource string
+		anchor   string
+		location string
+	}
+	var declarations []anchorDeclaration
+
+	var walk func(node any, resource string, location string)
+	walk = func(node any, resource string, location string) {
+		switch value := node.(type) {
+		case []any:
+			for i, item := range value {
+				walk(item, resource, fmt.Sprintf("%s/%d", location, i))
+			}
+		case map[string]any:
+			for _, keyword := range []string{"$id", "id"} {
+				if id, isString := value[keyword].(string); isString {
+					if name, isAnchor := strings.CutPrefix(id, "#"); isAnchor && name != "" {
+						declarations = append(declarations, anchorDeclaration{resource, name, location})
+					} else if !isAnchor && id != "" {
+						// a schema with an identifier of its own starts another resource
+						resource = id
+					}
+				}
+			}
+			for _, keyword := range []string{"$anchor", "$dynamicAnchor"} {
+				if name, isString := value[keyword].(string); isString {
+					declarations = append(declarations, anchorDeclaration{resource, name, location})
+				}
+			}
+
+			keys := make([]string, 0, len(value))
+			for key := range value {
+				keys = append(keys, key)
+			}
+			sort.Strings(keys)
+
+			for _, key := range keys {
+				// what these keywords hold is data, not schemas
+				if key == "enum" || key == "const" || key == "default" || key == "examples" {
+					continue
+				}
+
+				walk(value[key], resource, location+"/"+key)
+			}
+		}
+	}
+	walk(document, "", "")
+
+	// resource and anchor → where it is declared
+	declared := make(map[[2]string]string, len(declarations))
+	for _, declaration := range declarations {
+		key := [2]string{declaration.resource, declaration.anchor}
+		if previous, taken := declared[key]; taken && previous != declaration.location {
+			return fmt.Errorf("the anchor '%s' is declared by #%s and by #%s: what a reference to it designates is not defined", declaration.anchor, previous, declaration.location)
+		}
+		declared[key] = declaration.location
+	}
 
 	return nil
 }
